@@ -160,20 +160,9 @@ func buildItems(m *model, c *Case, final bool) []item {
 	if !final || c.Redef == nil {
 		return items
 	}
-	// constructs with a listed finding that concern the redefinition
-	prev := newModel(c, c.Classes)
-	r := c.Redef.Class
+	// construct with a listed finding that concerns the redefinition
 	for k := range items {
 		it := &items[k]
-		x := it.class
-		if x != r && prev.inherits(x, r) {
-			for _, y := range prev.prec(x) {
-				if y != x && y != r && prev.inherits(y, r) {
-					it.feats = append(it.feats, featIndirect)
-					break
-				}
-			}
-		}
 		if c.Redef.Skew < 0 && (it.kind == "dispatch-again" || it.kind == "foreign-accessor-again") {
 			it.feats = append(it.feats, featCached)
 		}
@@ -182,16 +171,10 @@ func buildItems(m *model, c *Case, final bool) []item {
 }
 
 const (
-	// the class inherits the redefined class through another class
-	featIndirect = "redefine-superclass-of-superclass"
 	// a generic function already called on instances of the class before the redefinition
 	featCached = "generic-called-before-redefinition"
-	// the redefinition names a superclass that does not exist yet while subclasses exist
-	featAwaits = "redefinition-awaits-superclass"
 	// :reader/:writer/:accessor options of define-condition slots
 	featCondAcc = "condition-slot-accessor"
-	// a condition class whose list has the base class condition before another class
-	featBaseMid = "condition-base-before-other-class"
 )
 
 func buildItems1(m *model, c *Case, final bool) []item {
@@ -204,11 +187,7 @@ func buildItems1(m *model, c *Case, final bool) []item {
 	}
 	for x := 0; x < n; x++ {
 		prec := m.prec(x)
-		var precFeats []string
-		if m.baseMidList(x) {
-			precFeats = []string{featBaseMid}
-		}
-		items = append(items, item{kind: "precedence", class: x, feats: precFeats, src: fmt.Sprintf("(list (class-precedence '@c%d))", x),
+		items = append(items, item{kind: "precedence", class: x, src: fmt.Sprintf("(list (class-precedence '@c%d))", x),
 			subs: []sub{{kind: "precedence", what: fmt.Sprintf("class-precedence of c%d", x), want: m.precNames(x)}}})
 		all := m.initargs(x)
 		sets := argsets(all, c.MaxArgs)
@@ -439,7 +418,7 @@ func (rn *run) fail(sig, perm string, format string, a ...any) {
 func sigOf(obs, fail, when string, feats []string) string {
 	// constructs exercised by the evaluation itself first, then those that
 	// concern the whole class
-	for _, f := range []string{"initform-nil", "shared-initarg", "two-initargs-one-slot", featCondAcc, featBaseMid, featCached, featAwaits, featIndirect} {
+	for _, f := range []string{"shared-initarg", "two-initargs-one-slot", featCondAcc, featCached} {
 		for _, have := range feats {
 			if have == f {
 				return "construct=" + f
@@ -584,7 +563,24 @@ func exec(x *fw.Ctx, c Case) {
 	x.Cover(fmt.Sprintf("shape:classes=%d", n))
 	x.Cover(fmt.Sprintf("shape:depth=%d", depth))
 	x.Cover(fmt.Sprintf("shape:max-shadow-levels=%d", shadow))
+	for k := 0; k < n; k++ {
+		if m0.baseMidList(k) {
+			x.Cover("shape:condition-base-before-other-class")
+			break
+		}
+	}
 	if c.Redef != nil {
+		for k := 0; k < n; k++ {
+			if k != c.Redef.Class && m0.inherits(k, c.Redef.Class) {
+				for _, y := range m0.prec(k) {
+					if y != k && y != c.Redef.Class && m0.inherits(y, c.Redef.Class) {
+						x.Cover("shape:redefined-class-has-indirect-subclass")
+						k = n
+						break
+					}
+				}
+			}
+		}
 		if c.Redef.Skew < 0 {
 			x.Cover("shape:redefinition-at-end")
 		} else {
@@ -649,24 +645,8 @@ func exec(x *fw.Ctx, c Case) {
 				} else {
 					got = strings.ReplaceAll(sl.Show(res), prefix, "@")
 				}
-				var pf []string
-				if cur.baseMidList(k) {
-					pf = []string{featBaseMid}
-				}
-				if c.Redef != nil && cur.gen[c.Redef.Class] == 1 && k != c.Redef.Class && m0.inherits(k, c.Redef.Class) {
-					// the listed findings about redefinition show at the intermediate steps too
-					if redefForward {
-						pf = append(pf, featAwaits)
-					}
-					for _, y := range m0.prec(k) {
-						if y != k && y != c.Redef.Class && m0.inherits(y, c.Redef.Class) {
-							pf = append(pf, featIndirect)
-							break
-						}
-					}
-				}
 				if got != cur.precNames(k) {
-					rn.fail(sigOf("precedence-partial", "wrong", when, pf), ps, "after defining %d of %d classes class-precedence of c%d is %s, expected %s",
+					rn.fail(sigOf("precedence-partial", "wrong", when, nil), ps, "after defining %d of %d classes class-precedence of c%d is %s, expected %s",
 						len(defined), n, k, strings.ReplaceAll(got, "@", ""), strings.ReplaceAll(cur.precNames(k), "@", ""))
 				} else {
 					x.Cover("held:precedence-partial")
@@ -767,12 +747,7 @@ func exec(x *fw.Ctx, c Case) {
 					return w
 				}
 				return "redef-unrelated"
-			}, "p1", func(k int) []string {
-				if redefForward && k != c.Redef.Class && m0.inherits(k, c.Redef.Class) {
-					return []string{featAwaits}
-				}
-				return nil
-			})
+			}, "p1", nil)
 		}
 	}
 	x.CoverN("evaluations", rn.evals)
@@ -824,7 +799,7 @@ func init() {
 			"(slot-exists-p/slot-boundp/slot-value of every slot name), (setf slot-value), slot-makunbound, typep/class-of/subtypep against every class, dispatch, " +
 			"every applicable reader/writer/accessor, non-applicable accessors. The first 18 cases are a fixed seed-independent list of shapes (chains, diamond, redefinition of root/middle/apex, " +
 			"every construct with a listed finding). distinct = distinct case JSON; every case is non-trivial (>= 2 classes, >= 2 orders, >= 100 evaluations). " +
-			"Avoided in ~85% of the cases (dirty stream keeps them): initarg shared by two slots, :initform nil, a slot with two initargs (both supplied together), condition classes with accessors.",
+			"Avoided in ~85% of the cases (dirty stream keeps them): initarg shared by two slots, a slot with two initargs (both supplied together), condition classes with accessors.",
 		N:        nCases,
 		Gen:      gen,
 		Exec:     exec,
